@@ -15,7 +15,11 @@ def run(tier):
                 "pivot); (2) every branch condition in linalg.rs is computed from real parts (F-typed), counters and sizes, or through the "
                 "real-part based Signed / PartialOrd items of the scalar; (3) pairing: row swap, permutation swap and the parity counter are "
                 "updated in the same guarded block, the determinant is negated exactly for odd parity, the eigenvalue sort swaps the "
-                "eigenvector column together with the eigenvalue, ScalarOperand is implemented for all 8 types. NOT decided (out of reach of "
+                "eigenvector column together with the eigenvalue, ScalarOperand is implemented for all 8 types; (4) formula level: every "
+                "loop body of LU::new / solve / inverse and of the Jacobi sweep is evaluated once for symbolic indices and its update statements "
+                "are exactly those of the textbook schemes (Doolittle elimination, forward/back substitution on the permuted right-hand side, "
+                "Jacobi rotation g' = g - s(h + g tau), h' = h + s(g - h tau) with t, c, s, tau as in Numerical Recipes) over the textbook index "
+                "ranges; (5) the field-trait methods nalgebra's decompositions call forward to the verified dual operations. NOT decided (out of reach of "
                 "a static argument here): the defining identities A x = b, A A^-1 = I, A V = V diag(lambda), Jacobi's formula, "
                 "Hellmann-Feynman, convergence of the Jacobi sweeps, conditioning-scaled tolerances, nalgebra's own decompositions.",
                 assumptions=["loop invariants of the numerical algorithms are not established"],
@@ -33,6 +37,9 @@ def run(tier):
     guards_real(chk, F, fns)
     scalar_operand(chk, F)
     field_traits(chk, F)
+    from . import c12_loops
+    c12_loops.run_loops(chk, F)
+    chk.floor("loop-body update statements checked", chk.analysed.get("loop-body update statements checked", 0), 30)
     chk.floor("linalg bodies", len(fns), 7)
     return chk.finish()
 
